@@ -8,37 +8,52 @@ import (
 var relClasses = []string{"independent", "equal_same_rep", "equal_other_rep", "neg_same_rep", "neg_other_rep",
 	"id_left", "id_right", "id_both", "same_x_other", "same_y_other", "base_involved"}
 
-// setupPair puts P in E[a] and Q in E[b] according to the relation class.
-func (m *M) setupPair(a, b int, rel string) {
+// setupPair puts P in E[a] and Q in E[b] according to the relation class, in any representations.
+func (m *M) setupPair(a, b int, rel string) { m.setupPairLam(a, b, rel, "", "") }
+
+// setupPairLam: la / lb fix the projective scaling class of P / Q ("" = any).
+func (m *M) setupPairLam(a, b int, rel, la, lb string) {
 	m.class("rel:" + rel)
+	lamA := func() string {
+		if la != "" {
+			return la
+		}
+		return m.anyLam()
+	}
+	lamB := func() string {
+		if lb != "" {
+			return lb
+		}
+		return m.anyLam()
+	}
 	x, y := m.randPoint()
 	negY := new(big.Int).Sub(bigP, y)
 	switch rel {
 	case "independent":
-		m.putPoint(a, x, y, m.anyLam())
+		m.putPoint(a, x, y, lamA())
 		x2, y2 := m.randPoint()
-		m.putPoint(b, x2, y2, m.anyLam())
+		m.putPoint(b, x2, y2, lamB())
 	case "equal_same_rep":
-		m.putPoint(a, x, y, m.anyLam())
+		m.putPoint(a, x, y, lamA())
 		m.ESet(b, a)
 	case "equal_other_rep":
-		m.putPoint(a, x, y, m.anyLam())
-		m.putPoint(b, x, y, m.anyLam())
+		m.putPoint(a, x, y, lamA())
+		m.putPoint(b, x, y, lamB())
 	case "neg_same_rep":
-		m.putPoint(a, x, y, m.anyLam())
+		m.putPoint(a, x, y, lamA())
 		m.ESet(b, a)
 		m.ENegate(b)
 	case "neg_other_rep", "same_x_other":
-		m.putPoint(a, x, y, m.anyLam())
-		m.putPoint(b, x, negY, m.anyLam())
+		m.putPoint(a, x, y, lamA())
+		m.putPoint(b, x, negY, lamB())
 	case "same_y_other":
-		m.putPoint(a, x, y, m.anyLam())
-		m.putPoint(b, mulmod(x, beta, bigP), y, m.anyLam())
+		m.putPoint(a, x, y, lamA())
+		m.putPoint(b, mulmod(x, beta, bigP), y, lamB())
 	case "id_left":
 		m.putIdentity(a, m.rng.Intn(4))
-		m.putPoint(b, x, y, m.anyLam())
+		m.putPoint(b, x, y, lamB())
 	case "id_right":
-		m.putPoint(a, x, y, m.anyLam())
+		m.putPoint(a, x, y, lamA())
 		m.putIdentity(b, m.rng.Intn(4))
 	case "id_both":
 		m.putIdentity(a, m.rng.Intn(4))
@@ -48,7 +63,7 @@ func (m *M) setupPair(a, b int, rel string) {
 		if m.rng.Intn(2) == 0 {
 			m.EBase(b)
 		} else {
-			m.putPoint(b, x, y, m.anyLam())
+			m.putPoint(b, x, y, lamB())
 		}
 	}
 }
@@ -56,9 +71,11 @@ func (m *M) setupPair(a, b int, rel string) {
 // genC02: Add / Subtract / Double / Negate on every relation class, every aliasing, chained so that
 // later operands are in whatever representation earlier operations left them.
 func genC02(m *M, budget int) {
+	k := 0
 	for m.events < budget {
 		m.reset()
-		for _, rel := range relClasses {
+		k++
+		for _, rel := range []string{relClasses[(3*k)%len(relClasses)], relClasses[(3*k+1)%len(relClasses)], relClasses[(3*k+2)%len(relClasses)]} {
 			m.setupPair(0, 1, rel)
 			m.ESet(2, 0) // keep copies: the subject operations run on several receivers
 			m.ESet(3, 1)
@@ -97,10 +114,28 @@ func genC02(m *M, budget int) {
 			}
 			if m.raw && m.rng.Intn(3) == 0 {
 				r := m.rng.Intn(4)
-				if !m.E[r].IsIdentity() || true {
-					m.ERescale(r, m.lambda(m.anyLam()))
-				}
+				m.ERescale(r, m.lambda(m.anyLam()))
 				m.EAdd(m.rng.Intn(4), r)
+			}
+		}
+		// points with a coordinate (canonical or in the Montgomery domain) in a boundary window, Z = 1
+		for i := 0; i < 5; i++ {
+			x, y, cls := m.boundaryPoint()
+			m.class("boundary:" + cls)
+			m.putPoint(0, x, y, "one")
+			m.ESet(1, 0)
+			m.ESet(2, 0)
+			m.EDouble(0)
+			m.EAdd(1, 1)
+			switch i % 3 {
+			case 0:
+				m.ENegate(2)
+				m.EAdd(2, 0) // -P + 2P
+			case 1:
+				m.ESub(0, 2) // 2P - P
+			default:
+				m.EDouble(1) // 4P
+				m.EAdd(2, 1)
 			}
 		}
 	}
@@ -108,42 +143,59 @@ func genC02(m *M, budget int) {
 
 // genC05: Equal / IsIdentity over all relation classes, both orders.
 func genC05(m *M, budget int) {
-	for m.events < budget {
-		m.reset()
-		for _, rel := range relClasses {
-			m.setupPair(0, 1, rel)
+	lamPairs := [][2]string{{"one", "random"}, {"random", "one"}, {"one", "one"}, {"random", "two"}, {"", ""}}
+	off := m.rng.Intn(1000)
+	for c := 0; m.events < budget; c++ {
+		if c%2 == 0 {
+			m.reset()
+		}
+		// the full product relation class x (affine / scaled) representation pair, then again
+		rel := relClasses[(c+off)%len(relClasses)]
+		lp := lamPairs[((c+off)/len(relClasses))%len(lamPairs)]
+		m.setupPairLam(0, 1, rel, lp[0], lp[1])
+		m.EEqual(0, 1)
+		m.EEqual(1, 0)
+		m.EEqual(0, 0)
+		m.EIsIdentity(0)
+		m.EIsIdentity(1)
+		// the same comparison after the operands went through arithmetic (other representations)
+		m.ESet(2, 0)
+		m.EDouble(2)
+		m.ESet(3, 0)
+		m.EAdd(3, 0)
+		m.EEqual(2, 3)
+		m.EEqual(3, 1)
+		m.ESub(3, 0)
+		m.EEqual(3, 0)
+		m.ESub(3, 0)
+		m.EIsIdentity(3)
+		m.EEqual(3, 1)
+		m.EEqual(1, 3)
+		if m.raw {
+			m.ERescale(1, m.lambda("random"))
 			m.EEqual(0, 1)
 			m.EEqual(1, 0)
-			m.EEqual(0, 0)
+		}
+		if c%3 == 0 {
+			x, y, cls := m.boundaryPoint()
+			m.class("boundary:" + cls)
+			m.putPoint(0, x, y, "one")
+			m.putPoint(1, x, y, m.anyLam())
+			m.EEqual(0, 1)
+			m.ENegate(1)
+			m.EEqual(1, 0)
 			m.EIsIdentity(0)
-			m.EIsIdentity(1)
-			// the same comparison after the operands went through arithmetic (other representations)
-			m.ESet(2, 0)
-			m.EDouble(2)
-			m.ESet(3, 0)
-			m.EAdd(3, 0)
-			m.EEqual(2, 3)
-			m.EEqual(3, 1)
-			m.ESub(3, 0)
-			m.EEqual(3, 0)
-			m.ESub(3, 0)
-			m.EIsIdentity(3)
-			m.EEqual(3, 1)
-			m.EEqual(1, 3)
-			if m.raw {
-				m.ERescale(1, m.lambda("random"))
-				m.EEqual(0, 1)
-				m.EEqual(1, 0)
-			}
 		}
 	}
 }
 
 // genC04: the encoders on elements reached in different ways, and the round trip through Decode.
 func genC04(m *M, budget int) {
+	k := 0
 	for m.events < budget {
 		m.reset()
-		for _, rel := range relClasses {
+		k++
+		for _, rel := range []string{relClasses[k%len(relClasses)]} {
 			m.setupPair(0, 1, rel)
 			for _, v := range []int{0, 1} {
 				enc := m.EEncode(v)
@@ -155,6 +207,12 @@ func genC04(m *M, budget int) {
 				m.EEqual(2, v)
 				m.EDecodeForm(3, "any", unc)
 				m.EEqual(3, v)
+				// the decoded copies must also BEHAVE like P (receivers 2, 3 held other values before)
+				m.EAdd(2, 1-v)
+				m.EAdd(3, 1-v)
+				m.EEqual(2, 3)
+				m.ESub(2, 1-v)
+				m.EEqual(2, v)
 				if m.rng.Intn(2) == 0 {
 					m.EDecodeForm(2, "hex", []byte(h))
 					m.EDecodeForm(3, "unmarshal", enc)
@@ -175,6 +233,24 @@ func genC04(m *M, budget int) {
 				m.EEncodeUnc(2)
 				m.EXCoord(2)
 			}
+		}
+		// extreme coordinates: the encoders must emit them and the decoders take them back
+		for i := k; i < k+2; i++ {
+			x, y, cls := m.boundaryPoint()
+			m.class("boundary:" + cls)
+			m.putPoint(0, x, y, m.anyLam())
+			enc := m.EEncode(0)
+			unc := m.EEncodeUnc(0)
+			m.EDecodeForm(1, "any", enc)
+			m.EEqual(1, 0)
+			m.EDecodeForm(2, []string{"any", "unc", "unmarshal"}[i%3], unc)
+			m.EEqual(2, 0)
+			if i%4 == 0 {
+				m.EDecodeForm(3, "hex", []byte(m.EHex(0)))
+				m.EEqual(3, 0)
+			}
+			m.ENegate(0)
+			m.EDecodeForm(1, "comp", m.EEncode(0))
 		}
 	}
 }
@@ -210,6 +286,15 @@ func (m *M) xClass(class string) []byte {
 		return be32(new(big.Int).Sub(bigR, one))
 	case "random_off":
 		return be32(m.offCurveX())
+	case "boundary":
+		x, _, _ := m.boundaryPoint()
+		return be32(x)
+	case "small_y":
+		for {
+			if x, _ := pointWithY(big.NewInt(int64(1 + m.rng.Intn(1<<20)))); x != nil {
+				return be32(x)
+			}
+		}
 	default: // random_on
 		x, _ := m.randPoint()
 		return be32(x)
@@ -217,7 +302,7 @@ func (m *M) xClass(class string) []byte {
 }
 
 var xClasses = []string{"zero", "one", "small_on", "small_off", "p_minus_1", "p", "p_plus_1", "on_curve_plus_p",
-	"max", "random_on", "random_on", "random_off"}
+	"max", "random_on", "random_on", "random_off", "boundary", "boundary", "small_y"}
 var yClasses = []string{"right", "other_root", "y_plus_p", "random", "ge_p", "zero"}
 var prefixes = []byte{0, 1, 2, 3, 4, 5, 6, 7, 0xff}
 
@@ -337,8 +422,46 @@ func genC03(m *M, budget int) {
 				data = hx
 			}
 			m.EDecodeForm(0, form, data)
+			// whatever a decoder left in the receiver must behave as the group element it stands for
+			if i%5 == 4 {
+				m.followUp(0)
+			}
+		}
+		// the identity and real points decoded into a receiver that already holds something else
+		for _, form := range []string{"any", "unmarshal", "hex"} {
+			m.priorReceiver(0)
+			if form == "hex" {
+				m.EDecodeForm(0, form, []byte("00"))
+			} else {
+				m.EDecodeForm(0, form, []byte{0})
+			}
+			m.followUp(0)
 		}
 	}
+}
+
+// followUp exercises the value in E[v] (copied first) next to the same operations on an element built
+// directly from coordinates, so that a general fault of those operations shows up there first.
+func (m *M) followUp(v int) {
+	x, y := m.randPoint()
+	m.putPoint(1, x, y, m.anyLam())
+	m.ESet(2, 1)
+	m.EAdd(2, 1) // calibration: operands not produced by a decoder
+	m.ESet(2, 1)
+	m.EAdd(2, v) // Q + decoded
+	m.ESet(3, v)
+	m.EAdd(3, 1) // decoded + Q
+	m.ESet(3, v)
+	m.EDouble(3)
+	m.ESet(3, v)
+	m.ENegate(3)
+	m.ESet(2, 1)
+	m.ESub(2, v)
+	m.EEqual(v, 3)
+	m.SSetU64(0, uint64(2+m.rng.Intn(30)))
+	m.ESet(3, v)
+	m.EMul(3, 0)
+	m.EEncodeUnc(v)
 }
 
 const hexdigits = "0123456789abcdef"
@@ -364,7 +487,8 @@ func upper(s string) string {
 
 // ---------------------------------------------------------------- C01: scalar multiplication
 
-var elemClasses = []string{"base", "random", "rescaled", "identity", "identity_raw", "identity_cancel", "doubled", "small_x"}
+var elemClasses = []string{"base", "random", "rescaled", "identity", "identity_raw", "identity_cancel", "doubled", "small_x",
+	"neg_base", "neg_base_decoded", "base_decoded", "base_rescaled", "boundary", "hashed"}
 
 func (m *M) putElemClass(r int, class string) {
 	m.class("elem:" + class)
@@ -390,13 +514,41 @@ func (m *M) putElemClass(r int, class string) {
 	case "small_x":
 		x, y := m.smallXPoint()
 		m.putPoint(r, x, y, m.anyLam())
+	case "neg_base":
+		m.EBase(r)
+		m.ENegate(r)
+	case "neg_base_decoded":
+		enc := secp256k1BaseEncoding()
+		enc[0] ^= 1
+		m.EDecodeForm(r, "any", enc)
+	case "base_decoded":
+		m.EDecodeForm(r, "any", secp256k1BaseEncoding())
+	case "base_rescaled":
+		m.EBase(r)
+		if m.raw {
+			m.ERescale(r, m.lambda("random"))
+		} else {
+			m.EDouble(r)
+		}
+	case "boundary":
+		x, y, cls := m.boundaryPoint()
+		m.class("boundary:" + cls)
+		m.putPoint(r, x, y, "one")
+	case "hashed":
+		m.EHashToGroup(r, m.randBytes(12), []byte("verif-elem-class"))
 	}
+}
+
+func secp256k1BaseEncoding() []byte {
+	gx, _ := new(big.Int).SetString("79be667ef9dcbbac55a06295ce870b07029bfcdb2dce28d959f2815b16f81798", 16)
+	return append([]byte{2}, be32(gx)...)
 }
 
 // genC01: full selects full-width scalar classes (each costs the validator seconds), otherwise small ones.
 func genC01(m *M, nFull, nSmall int) {
-	fullClasses := []string{"minus_one", "minus_two", "half_up", "half_down", "pow2_255", "top_bit_set", "top_bit_set",
-		"dense", "limb_pattern", "near_n", "random", "random"}
+	fullClasses := []string{"minus_one", "word_structure", "word_boundary", "half_up", "word_structure", "pow2_255", "top_bit_set",
+		"word_boundary", "dense", "limb_pattern", "word_structure", "near_n", "random", "minus_two", "word_boundary", "half_down",
+		"word_structure", "top_bit_set", "random"}
 	smallClasses := []string{"zero", "one", "two", "three", "small", "small", "sparse", "pow2"}
 	i := 0
 	for done := 0; done < nFull; done++ {
